@@ -448,6 +448,16 @@ func c12Workload[T any](rep *Report, codec Codec[T], api string, exit string) {
 		cnt := plan.Counts()["A.marshal"]
 		plan.FailAt("A.marshal", cnt+3) // slot, closure id, then the request
 		res = withWatchdog(func() (any, error) { return nil, ra.KeepClosure(ctx, 1, cb) })
+	case "marshal-failure-later-argument":
+		// TWO closures in one call: the first is registered, then the marshal of the SECOND closure's id fails — the call
+		// leaves from inside its argument loop; the first closure must be released all the same
+		cnt := plan.Counts()["A.marshal"]
+		plan.FailAt("A.marshal", cnt+3) // slot, first closure id, then the second closure id
+		cb2 := func(ctx context.Context, i int, s string) (string, error) { return "ranB", nil }
+		res = withWatchdog(func() (any, error) { return ra.KeepTwo(ctx, 1, cb, cb2) })
+		if res.ok && res.err == nil {
+			rep.addViolation("property", key+":no-error", "a call whose argument could not be marshalled returned a nil error", desc)
+		}
 	case "cancel":
 		done := make(chan struct{})
 		go func() {
@@ -552,7 +562,7 @@ func runC12(rep *Report, tier string, seed int64) {
 	}
 	for r := 0; r < reps; r++ {
 		for _, api := range apis() {
-			for _, exit := range []string{"success", "two-closures", "marshal-failure", "cancel", "link-death", "link-already-ended", "late-while-another-in-flight"} {
+			for _, exit := range []string{"success", "two-closures", "marshal-failure", "marshal-failure-later-argument", "cancel", "link-death", "link-already-ended", "late-while-another-in-flight"} {
 				switch r % 3 {
 				case 0:
 					c12Workload(rep, jsonRaw(), api, exit)
